@@ -2,7 +2,10 @@
 
 package profile
 
-import "strconv"
+import (
+	"regexp"
+	"strconv"
+)
 
 func init() {
 	vRegister("VerifC11Prune", VerifC11Prune)
@@ -310,4 +313,60 @@ func VerifC11NoExpr() {
 		vAssert(vSameInts(vC11Frames(s, ids), before[si]), "C11.noexpr.changed: frames changed without expressions")
 	}
 	vObserve(len(p.Sample))
+}
+
+func init() { vRegister("VerifC11RemoveUninteresting", VerifC11RemoveUninteresting) }
+
+// VerifC11RemoveUninteresting: a profile's own DropFrames/KeepFrames decide
+// what RemoveUninteresting removes, whatever profiles were processed before
+// in the same process: two profiles in a row (same or different drop/keep
+// expressions, either order), each compared with Prune on its own
+// anchored expressions.
+func VerifC11RemoveUninteresting() {
+	drops := []string{"b|c", "b", "c.*"}
+	keeps := []string{"", "c", "b"}
+	build := func(drop, keep string) (*Profile, *Profile) {
+		mk := func() *Profile {
+			var fs []*Function
+			var ls []*Location
+			for i, n := range []string{"a", "b", "c", "d"} {
+				f := &Function{ID: uint64(i + 1), Name: n, SystemName: n, Filename: "f.go"}
+				fs = append(fs, f)
+				ls = append(ls, &Location{ID: uint64(i + 1), Line: []Line{{Function: f}}})
+			}
+			return &Profile{SampleType: []*ValueType{{Type: "s", Unit: "c"}}, Function: fs, Location: ls, DropFrames: drop, KeepFrames: keep,
+				Sample: []*Sample{{Location: []*Location{ls[3], ls[2], ls[1], ls[0]}, Value: []int64{1}}, {Location: []*Location{ls[3], ls[1], ls[0]}, Value: []int64{2}}, {Location: []*Location{ls[2], ls[0]}, Value: []int64{3}}}}
+		}
+		return mk(), mk()
+	}
+	same := func(p, q *Profile) bool {
+		if len(p.Sample) != len(q.Sample) {
+			return false
+		}
+		for i := range p.Sample {
+			a, b := p.Sample[i].Location, q.Sample[i].Location
+			if len(a) != len(b) {
+				return false
+			}
+			for j := range a {
+				if a[j].ID != b[j].ID {
+					return false
+				}
+			}
+		}
+		return true
+	}
+	d1, k1 := drops[vChoice("drop1", len(drops))], keeps[vChoice("keep1", len(keeps))]
+	d2, k2 := drops[vChoice("drop2", len(drops))], keeps[vChoice("keep2", len(keeps))]
+	for i, dk := range [][2]string{{d1, k1}, {d2, k2}} {
+		p, ref := build(dk[0], dk[1])
+		err := p.RemoveUninteresting()
+		var keep *regexp.Regexp
+		if dk[1] != "" {
+			keep = regexp.MustCompile("^(" + dk[1] + ")$")
+		}
+		ref.Prune(regexp.MustCompile("^("+dk[0]+")$"), keep)
+		vAssert(err == nil && same(p, ref), "C11.removeuninteresting."+strconv.Itoa(i)+": the frames removed are not those its own drop_frames/keep_frames select (result depends on profiles processed before)")
+	}
+	vReach("C11.removeuninteresting:done")
 }
